@@ -72,9 +72,26 @@ def const_value(t):
     return None
 
 
+TRY_OK = {"Option": (("d", 1, "Some"), ("f", 0, "0", "std::option::Option")), "Result": (("d", 0, "Ok"), ("f", 0, "0", "std::result::Result"))}
+TRY_ERR = (("d", 1, "Err"), ("f", 0, "0", "std::result::Result"))
+
+
 def mk_place(base, proj):
     """Normalise: deref of ref cancels; nested places flatten; field of aggregate selects operand."""
     for e in proj:
+        # `x?` normal form: the Continue payload of Try::branch(x) is x's Some/Ok payload, the Break payload its residual
+        if base[0] == "try" and isinstance(e, tuple) and e[0] == "d" and e[2] in ("Continue", "Break"):
+            base = ("tryc" if e[2] == "Continue" else "tryb", base[1], base[2])
+            continue
+        if base[0] == "tryc" and isinstance(e, tuple) and e[0] == "f" and e[1] == 0:
+            base = mk_place(base[1], TRY_OK[base[2]])
+            continue
+        if base[0] == "tryb" and isinstance(e, tuple) and e[0] == "f" and e[1] == 0:
+            if base[2] == "Option":
+                base = ("agg", "std::option::Option", "None", (), 0)
+            else:
+                base = ("agg", "std::result::Result", "Err", (mk_place(base[1], TRY_ERR),), 1)
+            continue
         if base[0] == "call" and isinstance(e, tuple) and e[0] == "d" and e[2] == "Ready" and isinstance(base[2], str) and base[2].endswith("Future>::poll"):
             # `.await` desugaring: match poll(Pin::new_unchecked(&mut into_future(X)), cx) { Ready(v) => v, Pending => yield }
             base = ("await", await_inner(base[3][0]))
@@ -409,6 +426,16 @@ class Walker:
                     targs = ""
                 st.events.append(("call", bb, path, args, t["s"], targs))
                 fb = fold_try_branch(path, args) if t.get("t") is not None and k == "call" else None
+                if fb is None and t.get("t") is not None and k == "call" and isinstance(path, str) and len(args) == 1:
+                    if path.endswith("Try>::branch"):
+                        kind = "Option" if "option::Option" in path else ("Result" if "result::Result" in path else None)
+                        if kind:
+                            fb = ("try", args[0], kind)
+                    elif path.endswith("::from_residual") and args[0][0] == "agg" and args[0][2] == "None" and "option::Option" in path.split(" as ")[0]:
+                        fb = args[0]
+                    elif path.endswith("::from_residual") and args[0][0] == "agg" and args[0][2] == "Err" and "result::Result" in path.split(" as ")[0]:
+                        # `Err(e)?` / the error exit of `x?`: Err(From::from(e))
+                        fb = ("agg", "std::result::Result", "Err", (("call", bb, "<T as std::convert::From<T>>::from", (args[0][3][0],)),), 1)
                 if fb is not None:
                     dl, dproj = t["dest"]
                     if not dproj:
@@ -476,6 +503,11 @@ class Walker:
             if k == "switch":
                 term = self.operand(st, t["o"])
                 vals = t["vals"]
+                if term[0] == "discr" and term[1][0] == "try":
+                    # ControlFlow::{Continue = 0, Break = 1} of `x?`: decide on x itself (Option: None = 0, Some = 1; Result: Ok = 0, Err = 1)
+                    if term[1][2] == "Option":
+                        vals = [(1 - v, tb) for v, tb in vals]
+                    term = ("discr", term[1][1], 2, "std::option::Option<?>" if term[1][2] == "Option" else "std::result::Result<?, ?>")
                 listed = tuple(v for v, _ in vals)
                 cv = switch_const(term)
                 if cv is None and term[0] == "discr" and term[1][0] == "call" and isinstance(term[1][2], str) and term[1][2].endswith("Future>::poll"):
@@ -667,6 +699,8 @@ def show(t, depth=0):
             else:
                 s = "%s.?" % s
         return s
+    if k in ("try", "tryc", "tryb"):
+        return show(t[1], depth) + "?"
     if k == "ref":
         return "&" + show(t[1], depth + 1)
     if k == "call":
@@ -719,8 +753,11 @@ def subterms(t):
     k = t[0]
     if k == "pl":
         yield from subterms(t[1])
-    elif k in ("ref", "discr", "len", "await"):
+    elif k in ("ref", "discr", "len", "await", "try", "tryc", "tryb"):
         yield from subterms(t[1])
+    elif k == "phi":
+        if len(t) > 4 and isinstance(t[4], tuple):
+            yield from subterms(t[4])
     elif k == "call":
         for a in t[3]:
             yield from subterms(a)
